@@ -217,6 +217,40 @@ func ruleMarshalCoverage(c *core.Ctx) {
 		}
 		okName := fullUnder(map[string]string{"ArrayDimension.Name != nil": "true", "ArrayDimension.Length != nil": "false", "ArrayDimension.Comment == \"\"": "true"})
 		okLen := fullUnder(map[string]string{"ArrayDimension.Name != nil": "false", "ArrayDimension.Length != nil": "true", "ArrayDimension.Comment == \"\"": "true"})
+		// When the method is not written as returns under per-dimension tests (an accumulated flag, a predicate helper),
+		// the table above has no row to evaluate. What can still be decided is the necessary part: the choice of the
+		// rank-only form depends on the Name AND the Length of the dimensions.
+		hasLoopRow := false
+		for _, r := range rows {
+			if r.Kind == "return" && len(r.Loop) > 0 {
+				hasLoopRow = true
+			}
+		}
+		if !hasLoopRow {
+			deps := map[string]bool{}
+			ast.Inspect(arrayDims.Body, func(n ast.Node) bool {
+				ret, ok := n.(*ast.ReturnStmt)
+				if !ok || len(ret.Results) == 0 {
+					return true
+				}
+				rankOnly := false
+				ast.Inspect(ret.Results[0], func(m ast.Node) bool {
+					if ce, isCall := m.(*ast.CallExpr); isCall {
+						if _, isLen := lenArg(ap.TypesInfo, ce); isLen {
+							rankOnly = true
+						}
+					}
+					return true
+				})
+				if rankOnly {
+					for k := range condFieldDeps(c, ap.TypesInfo, arrayDims, ret) {
+						deps[k] = true
+					}
+				}
+				return true
+			})
+			okName, okLen = deps["Name"], deps["Length"]
+		}
 		c.Check(okName && okLen, rule, "ArrayDimensions.MarshalJSON/compact form", arrayDims.Pos(), "the rank-only form is used only when no dimension has a name or a length",
 			"the rank-only form can be chosen although a dimension has a name or a fixed length: `float[2,3]`, `float[3,2]` and `float[,]` get the same schema while their encodings differ")
 	}
@@ -341,4 +375,136 @@ func declsCalledInPkg(c *core.Ctx, d *ast.FuncDecl, depth int) []*ast.FuncDecl {
 	}
 	visit(d, depth)
 	return out
+}
+
+// condFieldDeps: the struct fields the decision to execute `at` depends on: fields named in the conditions around it
+// (and in the conditions of earlier statements of the enclosing blocks that leave), in the definitions of the locals
+// those conditions read (with the conditions those definitions are made under), and in the bodies of the module
+// functions they call.
+func condFieldDeps(c *core.Ctx, info *types.Info, d *ast.FuncDecl, at ast.Node) map[string]bool {
+	parent := map[ast.Node]ast.Node{}
+	var stack []ast.Node
+	ast.Inspect(d.Body, func(n ast.Node) bool {
+		if n == nil {
+			stack = stack[:len(stack)-1]
+			return true
+		}
+		if len(stack) > 0 {
+			parent[n] = stack[len(stack)-1]
+		}
+		stack = append(stack, n)
+		return true
+	})
+	enclosing := func(n ast.Node) []ast.Expr {
+		var out []ast.Expr
+		child := n
+		for cur := parent[n]; cur != nil; child, cur = cur, parent[cur] {
+			switch s := cur.(type) {
+			case *ast.IfStmt:
+				out = append(out, s.Cond)
+			case *ast.ForStmt:
+				if s.Cond != nil {
+					out = append(out, s.Cond)
+				}
+			case *ast.RangeStmt:
+				out = append(out, s.X)
+			case *ast.CaseClause:
+				out = append(out, s.List...)
+			case *ast.SwitchStmt:
+				if s.Tag != nil {
+					out = append(out, s.Tag)
+				}
+			case *ast.BlockStmt:
+				for _, sib := range s.List {
+					if ast.Node(sib) == child {
+						break
+					}
+					// an earlier statement that can leave: control is here only if it did not
+					ast.Inspect(sib, func(m ast.Node) bool {
+						if _, isLit := m.(*ast.FuncLit); isLit {
+							return false
+						}
+						if r, ok := m.(*ast.ReturnStmt); ok {
+							for up := parent[r]; up != nil && up != ast.Node(s); up = parent[up] {
+								switch u := up.(type) {
+								case *ast.IfStmt:
+									out = append(out, u.Cond)
+								case *ast.ForStmt:
+									if u.Cond != nil {
+										out = append(out, u.Cond)
+									}
+								case *ast.RangeStmt:
+									out = append(out, u.X)
+								case *ast.CaseClause:
+									out = append(out, u.List...)
+								}
+							}
+						}
+						return true
+					})
+				}
+			}
+		}
+		return out
+	}
+	fields := map[string]bool{}
+	objs := map[types.Object]bool{}
+	funcs := map[*types.Func]bool{}
+	work := enclosing(at)
+	for len(work) > 0 {
+		e := work[len(work)-1]
+		work = work[:len(work)-1]
+		ast.Inspect(e, func(n ast.Node) bool {
+			switch x := n.(type) {
+			case *ast.SelectorExpr:
+				if sel, ok := info.Selections[x]; ok && sel.Kind() == types.FieldVal {
+					fields[x.Sel.Name] = true
+				}
+			case *ast.CallExpr:
+				if f := core.Callee(info, x); f != nil && core.InModule(f) && !funcs[f.Origin()] {
+					funcs[f.Origin()] = true
+					if cd := c.Decl(f.Origin()); cd != nil && cd.Body != nil {
+						cinfo := c.DeclPkg(cd).TypesInfo
+						ast.Inspect(cd.Body, func(m ast.Node) bool {
+							if se, ok := m.(*ast.SelectorExpr); ok {
+								if sel, ok := cinfo.Selections[se]; ok && sel.Kind() == types.FieldVal {
+									fields[se.Sel.Name] = true
+								}
+							}
+							return true
+						})
+					}
+				}
+			case *ast.Ident:
+				o := info.Uses[x]
+				v, isVar := o.(*types.Var)
+				if !isVar || v.IsField() || objs[o] {
+					return true
+				}
+				objs[o] = true
+				ast.Inspect(d.Body, func(m ast.Node) bool {
+					switch s := m.(type) {
+					case *ast.AssignStmt:
+						for i, l := range s.Lhs {
+							if identObj(info, l) == o {
+								if len(s.Rhs) == len(s.Lhs) {
+									work = append(work, s.Rhs[i])
+								} else {
+									work = append(work, s.Rhs...)
+								}
+								work = append(work, enclosing(s)...)
+							}
+						}
+					case *ast.RangeStmt:
+						if identObj(info, s.Key) == o || identObj(info, s.Value) == o {
+							work = append(work, s.X)
+						}
+					}
+					return true
+				})
+			}
+			return true
+		})
+	}
+	return fields
 }
